@@ -556,6 +556,35 @@ func TestLongRunsAndLookalikes(t *testing.T) {
 			}
 			ev.Case(fmt.Sprintf("long-run/%d", total), true, "long-run-64+-laps")
 		}
+		// entries with many call-site fields keep all of them
+		{
+			ml := newLogger()
+			lg := zap.New(ml.GetCore())
+			counts := []int{0, 1, 5, 15, 16, 17, 31, 32, 33, 64, 100}
+			for _, nf := range counts {
+				fs := make([]zap.Field, nf)
+				for i := range fs {
+					fs[i] = zap.Int(fmt.Sprintf("f%d", i), 1000*nf+i)
+				}
+				lg.Info(fmt.Sprintf("with %d fields", nf), fs...)
+			}
+			logs := ml.GetLogs()
+			if len(logs) != len(counts) {
+				t.Fatalf("%d entries written with 0..100 fields, GetLogs has %d", len(counts), len(logs))
+			}
+			for i, e := range logs {
+				nf := counts[len(counts)-1-i]
+				if e == nil || len(e.Context) != nf {
+					t.Fatalf("the entry written with %d fields is retained with %d", nf, len(e.Context))
+				}
+				for j, f := range e.Context {
+					if f.Key != fmt.Sprintf("f%d", j) || f.Integer != int64(1000*nf+j) {
+						t.Fatalf("the entry written with %d fields: field %d is %s=%d", nf, j, f.Key, f.Integer)
+					}
+				}
+			}
+			ev.Case("many-fields", true, "entries-with-many-fields")
+		}
 		stamp := time.Unix(1700000000, 0)
 		for _, n := range []int{2, 7, 200, 1024, 1500} {
 			ml := newLogger()
